@@ -215,9 +215,9 @@ theorem lines_before_invalid_line_are_processed (F : Facts) (defsText queryText 
 every format, same status, same line count — for every definition text and every aggregate statement text without
 join, whenever for the first input the specification `Spec.Agg.batch` answers with an empty deviation class on the
 extracted rows, the lowered statement is `PermSafe` on them (the hypotheses of `Props/C15.lean`: order-insensitive
-aggregates, exact extremes, order-free sums) and the second input is outside D10 / D15 as well. `StmtWF` is discharged
-by the lowering (`lowered_aggregate_is_wellformed`); that the second input is covered by the facts and prepared
-follows from the first. -/
+aggregates, exact extremes, order-free sums). `StmtWF` is discharged by the lowering
+(`lowered_aggregate_is_wellformed`); that the second input is covered by the facts, prepared, and outside D10 / D15 as
+well follows from the first (`deviationClass_perm`: the class is a function of the multiset of the lines). -/
 theorem line_order_irrelevant (F : Facts) (defsText queryText : List Char) (fmt : Print.Format) (single : Bool)
     (files₁ files₂ : List (List Nat)) (hperm : (files₁.flatMap Reader.lines).Perm (files₂.flatMap Reader.lines))
     (defs : LStmt) (tables : List Table) (a : AggStmt) (fromTable : String) (file : Option String) (p₁ : Prepared) (ro : RunOut)
@@ -228,9 +228,7 @@ theorem line_order_irrelevant (F : Facts) (defsText queryText : List Char) (fmt 
     (ht : addTables defs = some tables)
     (hprep : prepare F tables (.aggregate a) fromTable none files₁ = some p₁)
     (hb : Spec.Agg.batch F.eval p₁.qy a p₁.joined p₁.files = some (ro, ""))
-    (hsafe : ∀ keyed, keyedRows F.eval a (envsOf p₁.qy.table p₁.files.flatten) = some keyed → PermSafe F.eval a keyed)
-    (hc₂ : ∀ p₂, prepare F tables (.aggregate a) fromTable none files₂ = some p₂ →
-      deviationClass F.eval a (envsOf p₂.qy.table p₂.files.flatten) = "") :
+    (hsafe : ∀ keyed, keyedRows F.eval a (envsOf p₁.qy.table p₁.files.flatten) = some keyed → PermSafe F.eval a keyed) :
     runText F defsText queryText fmt single files₁ = runText F defsText queryText fmt single files₂ := by
   obtain ⟨t, hg, htab, hstmt, hcov, hfiles, hnj, _⟩ := prepare_files F tables (.aggregate a) fromTable none files₁ p₁ hprep
   obtain ⟨hj, _⟩ := hnj rfl
@@ -245,10 +243,7 @@ theorem line_order_irrelevant (F : Facts) (defsText queryText : List Char) (fmt 
   have hwf := Props.Pipeline.lowered_aggregate_is_wellformed _ _ _ a fromTable file none hq
   have hperm' : p₁.files.flatten.Perm ((files₂.map (fileOf (extractedLine F t.defn))).flatten) := by
     rw [hfiles, fileOf_flatten, fileOf_flatten]; exact hperm.map _
-  have hdev : deviationClass F.eval a (envsOf p₁.qy.table (files₂.map (fileOf (extractedLine F t.defn))).flatten) = "" := by
-    have h0 := hc₂ _ hprep₂
-    rw [htab]; exact h0
-  have hrun := runBatchT_perm_invariant hstmt hwf hj p₁.joined (some p₁.joined) hperm' hsafe hb hdev
+  have hrun := runBatchT_perm_invariant hstmt hwf hj p₁.joined (some p₁.joined) hperm' hsafe hb
   obtain ⟨hr₁, _⟩ := runStatement_of_prepare F tables (.aggregate a) fromTable none files₁ _ hprep
   obtain ⟨hr₂, _⟩ := runStatement_of_prepare F tables (.aggregate a) fromTable none files₂ _ hprep₂
   rw [runText_eq_runLowered F defsText queryText fmt single files₁ defs _ hc hd hp hq,
@@ -281,12 +276,10 @@ theorem permuted_lines_same_answer (F : Facts) (defsText queryText : List Char) 
     (ht : addTables defs = some tables)
     (hprep : prepare F tables (.aggregate a) fromTable none [unlines ls₁] = some p₁)
     (hb : Spec.Agg.batch F.eval p₁.qy a p₁.joined p₁.files = some (ro, ""))
-    (hsafe : ∀ keyed, keyedRows F.eval a (envsOf p₁.qy.table p₁.files.flatten) = some keyed → PermSafe F.eval a keyed)
-    (hc₂ : ∀ p₂, prepare F tables (.aggregate a) fromTable none [unlines ls₂] = some p₂ →
-      deviationClass F.eval a (envsOf p₂.qy.table p₂.files.flatten) = "") :
+    (hsafe : ∀ keyed, keyedRows F.eval a (envsOf p₁.qy.table p₁.files.flatten) = some keyed → PermSafe F.eval a keyed) :
     runText F defsText queryText fmt single [unlines ls₁] = runText F defsText queryText fmt single [unlines ls₂] :=
   line_order_irrelevant F defsText queryText fmt single _ _ (permuted_lines_read_back ls₁ ls₂ hperm hnl).1
-    defs tables a fromTable file p₁ ro hc hd hp hq ht hprep hb hsafe hc₂
+    defs tables a fromTable file p₁ ro hc hd hp hq ht hprep hb hsafe
 
 /-! ### C01 / C02: the rows the query sees are `extractRow` of the lowered table definition -/
 
@@ -524,7 +517,7 @@ instance : DecidableEq (Except Unit (List Nat))
   | .error _, .ok _ => isFalse (fun e => by cases e)
 
 /-- the hypotheses of `line_order_irrelevant` that can be evaluated (texts lower, run prepared, the specification
-answers with an empty deviation class for both inputs) on a concrete pair of inputs … -/
+answers with an empty deviation class for the first input) on a concrete pair of inputs … -/
 def exPermHyps (F : Facts) (defsText queryText : List Char) (files₁ files₂ : List (List Nat)) : Bool :=
   classesCover F defsText && classesCover F queryText &&
   decide ((files₁.flatMap Reader.lines).Perm (files₂.flatMap Reader.lines)) &&
@@ -533,12 +526,12 @@ def exPermHyps (F : Facts) (defsText queryText : List Char) (files₁ files₂ :
     (createPatterns defs).all (fun re => ((Utf8.decode re).bind (regexValidOf F)).isSome) &&
     match addTables defs with
     | some tables =>
-      match prepare F tables (.aggregate a) fromTable none files₁, prepare F tables (.aggregate a) fromTable none files₂ with
-      | some p₁, some p₂ =>
+      match prepare F tables (.aggregate a) fromTable none files₁ with
+      | some p₁ =>
         (match Spec.Agg.batch F.eval p₁.qy a p₁.joined p₁.files with
           | some (_, cls) => cls == ""
-          | none => false) && deviationClass F.eval a (envsOf p₂.qy.table p₂.files.flatten) == ""
-      | _, _ => false
+          | none => false)
+      | none => false
     | none => false
   | _, _ => false
 
